@@ -25,7 +25,7 @@ type FuncResult struct {
 func (w *World) verifyFunc(pkg *PkgInfo, fn *ssa.Function, fc *FuncContract, label string) (res *FuncResult) {
 	x := &Exec{w: w, g: newGen(w), pkg: pkg, fn: fn, fc: fc, label: label, sites: map[ssa.Instruction]string{},
 		localM: map[*ssa.Alloc]bool{}, maxNodes: 20000, used: map[string]bool{}, inlined: map[string]bool{},
-		havocked: map[string]bool{}, inputs: map[string]string{}, plans: map[*ssa.Function]*lazyPlan{}}
+		havocked: map[string]bool{}, inputs: map[string]string{}, inputTypes: map[string]types.Type{}, plans: map[*ssa.Function]*lazyPlan{}}
 	res = &FuncResult{Func: fn.RelString(fn.Pkg.Pkg), Label: label, Gen: x.g}
 	defer func() {
 		res.Obls = x.obls
@@ -69,6 +69,7 @@ func (w *World) verifyFunc(pkg *PkgInfo, fn *ssa.Function, fc *FuncContract, lab
 		fr.vals[p] = v
 		fr.params[p.Name()] = v
 		x.inputs[p.Name()] = name
+		x.inputTypes[p.Name()] = p.Type()
 	}
 	env := x.envFor(st, fr)
 	env.post = true
@@ -120,24 +121,31 @@ func (x *Exec) checkPost(st *State, results []Val) {
 	if x.label == "" {
 		x.checkFrame(st, env)
 	}
+	_ = env
 }
 
 // checkFrame: every heap component changed by the function agrees with the entry heap outside the modifies set,
 // for every address that existed at entry (fresh objects are the function's own).
 func (x *Exec) checkFrame(st *State, env *Env) {
-	if x.fc.ModAny {
-		return
+	for _, fg := range x.frameGoals(st, st.top, func(name string) string { return x.g.fresh("framep", "Addr") }) {
+		x.emit(st, "FRAME", fg.comp, fg.formula, "memory outside the modifies clause is unchanged")
 	}
-	entry := st.top.entry
-	if entry == nil {
-		return
+}
+
+type frameGoal struct {
+	comp    string
+	cur     string
+	formula string
+}
+
+// frameGoals: for every heap component that differs from its value at function entry, the statement that it agrees
+// with the entry heap at every address p that existed at entry and is outside the function's modifies clause.
+func (x *Exec) frameGoals(st *State, fr *Frame, pvar func(comp string) string) []frameGoal {
+	if x.fc == nil || x.fc.ModAny || fr.parent != nil || fr.entry == nil {
+		return nil
 	}
-	var names []string
-	for name := range st.heap {
-		names = append(names, name)
-	}
-	sort.Strings(names)
-	// addresses in the modifies set, evaluated in the entry state
+	entry := fr.entry
+	env := x.envFor(st, fr)
 	eenv := env.withState(entry)
 	eenv.post = true
 	type mod struct {
@@ -156,6 +164,12 @@ func (x *Exec) checkFrame(st *State, env *Env) {
 		a, t := x.lvalueAddr(eenv, m)
 		mods = append(mods, mod{addr: a, t: t})
 	}
+	var names []string
+	for name := range st.heap {
+		names = append(names, name)
+	}
+	sort.Strings(names)
+	var out []frameGoal
 	for _, name := range names {
 		cur := st.heap[name]
 		old, ok := entry.heap[name]
@@ -165,20 +179,18 @@ func (x *Exec) checkFrame(st *State, env *Env) {
 		if cur == old {
 			continue
 		}
+		p := pvar(name)
+		var excl []string
 		if strings.HasPrefix(name, "MD_") || strings.HasPrefix(name, "MV_") {
-			p := x.g.fresh("framep", "Addr")
-			var excl []string
 			for _, m := range mods {
 				if m.mp {
 					excl = append(excl, snot(app("=", p, m.addr)))
 				}
 			}
 			hyp := sand(append(excl, app("<", app("oid", p), "fresh0"))...)
-			x.emit(st, "FRAME", name, simplies(hyp, app("=", app("select", cur, p), app("select", old, p))), "maps outside the modifies clause are unchanged")
+			out = append(out, frameGoal{name, cur, simplies(hyp, app("=", app("select", cur, p), app("select", old, p)))})
 			continue
 		}
-		p := x.g.fresh("framep", "Addr")
-		var excl []string
 		for _, m := range mods {
 			if m.mp {
 				continue
@@ -187,7 +199,6 @@ func (x *Exec) checkFrame(st *State, env *Env) {
 				excl = append(excl, snot(app("=", app("oid", p), app("oid", app("sarr", m.addr)))))
 				continue
 			}
-			// all leaf cells of the lvalue whose component is this one
 			x.leafAddrs(m.addr, m.t, func(a string, lt types.Type) {
 				if compName(x.w.sortOf(lt)) == name {
 					excl = append(excl, snot(app("=", p, a)))
@@ -195,8 +206,9 @@ func (x *Exec) checkFrame(st *State, env *Env) {
 			})
 		}
 		hyp := sand(append(excl, app("<", app("oid", p), "fresh0"), snot(app("=", p, "anil")))...)
-		x.emit(st, "FRAME", name, simplies(hyp, app("=", app("select", cur, p), app("select", old, p))), "memory outside the modifies clause is unchanged")
+		out = append(out, frameGoal{name, cur, simplies(hyp, app("=", app("select", cur, p), app("select", old, p)))})
 	}
+	return out
 }
 
 func (x *Exec) leafAddrs(a string, t types.Type, f func(a string, t types.Type)) {
